@@ -35,16 +35,52 @@ ASSUMPTIONS = [
     "histories beyond the depth bounds, names outside the alphabet, plist trees deeper than 3 are not visited",
 ]
 
-TMP_ROOT = "/dev/shm" if os.path.isdir("/dev/shm") else tempfile.gettempdir()
+TMP_ROOT = os.environ.get("C19_TMP") or ("/dev/shm" if os.path.isdir("/dev/shm") else tempfile.gettempdir())
+
+
+_RUN_ROOT = None
+_PROC_ROOT = {}
+_COUNTER = itertools.count()
+
+
+def run_root():
+    """One directory per run (made in the parent before forking, removed at exit); every
+    worker process works in its own sub-directory, so that the processes do not contend for
+    the same parent directory."""
+    global _RUN_ROOT
+    if _RUN_ROOT is None or not os.path.isdir(_RUN_ROOT):
+        import atexit
+
+        _RUN_ROOT = tempfile.mkdtemp(prefix="c19-", dir=TMP_ROOT)
+        owner = os.getpid()
+
+        def cleanup(path=_RUN_ROOT):
+            if os.getpid() == owner:
+                shutil.rmtree(path, ignore_errors=True)
+
+        atexit.register(cleanup)
+    return _RUN_ROOT
 
 
 class TempDir:
+    """A fresh empty directory for one case, deleted afterwards."""
+
     def __enter__(self):
-        self.path = tempfile.mkdtemp(prefix="c19-", dir=TMP_ROOT)
+        pid = os.getpid()
+        root = _PROC_ROOT.get(pid)
+        if root is None or not os.path.isdir(root):
+            root = _PROC_ROOT[pid] = tempfile.mkdtemp(prefix="w%d-" % pid, dir=run_root())
+        self.path = os.path.join(root, "d%d" % next(_COUNTER))
+        os.mkdir(self.path)
         return self.path
 
     def __exit__(self, *a):
         shutil.rmtree(self.path, ignore_errors=True)
+
+
+class FSUnit(Unit):
+    def setup(self, tier, seed):
+        run_root()
 
 
 # =============================================================== E1a  userNameToFileName
@@ -95,13 +131,21 @@ class FileNames(Unit):
                     try:
                         out = func(nm, existing=frozenset(), prefix=prefix, suffix=suffix)
                     except Exception as e:
-                        rec.violation("userNameToFileName:exception:%s:sweep" % type(e).__name__, "%s(%r): %r" % (flavour, nm, e), case=[flavour, "sweep", cp, pos])
+                        rec.violation("userNameToFileName:exception:%s:sweep" % type(e).__name__, "%s(%r): %r" % (flavour, nm, e))
                         continue
-                    self.judge(rec, flavour, nm, out, frozenset(), prefix, suffix, plen, slen, ["sweep", cp, pos])
+                    self.judge(rec, flavour, nm, out, frozenset(), prefix, suffix, plen, slen, None)
             rec.evals(3 * len(cps) - 1)
             rec.nontrivial_n(3 * len(cps))
             return
         names = self.alphabet(plen, slen)
+        if isinstance(first, list):
+            # replay form: exactly one sequence
+            existing = frozenset()
+            for k, idx in enumerate(first):
+                out = func(names[idx], existing=existing, prefix=prefix, suffix=suffix)
+                self.judge(rec, flavour, names[idx], out, existing, prefix, suffix, plen, slen, first[: k + 1])
+                existing = existing | {out.lower()}
+            return
         core = [i for i, nm in enumerate(names) if nm in N.CORE_NAMES or nm in N.CTRL_NAMES[:1]] + \
                [i for i, nm in enumerate(names) if nm.endswith(".con") and len(nm) > 200][:2]
         n = 0
@@ -116,7 +160,7 @@ class FileNames(Unit):
             except Exception as e:  # the functions document only NameTranslationError (exhaustion)
                 rec.violation("userNameToFileName:exception:%s:%s" % (type(e).__name__, N.name_shape(nm, flavour)),
                               "%s.userNameToFileName(%s, existing=%d names, prefix %d, suffix %d) raised %r" % (flavour, N.short(nm), len(existing), plen, slen, e),
-                              case=[flavour, plen, slen, list(seq)])
+                              case=[flavour, plen, slen, list(seq), "replay"])
                 return
             self.judge(rec, flavour, nm, out, existing, prefix, suffix, plen, slen, seq)
             maxlen = 3
@@ -138,7 +182,7 @@ class FileNames(Unit):
         rec.trace(n)
 
     def judge(self, rec, flavour, nm, out, existing, prefix, suffix, plen, slen, seq):
-        case = [flavour, plen, slen, list(seq)]
+        case = [flavour, plen, slen, list(seq), "replay"] if seq is not None else None
         shape = N.name_shape(nm, flavour)
         if not isinstance(out, str):
             rec.violation("userNameToFileName:not-a-string", "%r" % (out,), case=case)
@@ -220,6 +264,7 @@ class GSModel:
         self.files = {}  # file name -> (glyph name, record index) on disk
         self.committed = None  # contents.plist as last written: glyph name -> file name
         self.layerinfo = None  # index into LAYERINFO or None (no file)
+        self.opened_with_contents = False  # did contents.plist exist when the GlyphSet object was made
 
     def clean(self):
         return self.committed == self.mem and set(self.mem.values()) == set(self.files)
@@ -264,10 +309,10 @@ def abstract_apply(op, mem, committed):
     return mem, committed
 
 
-class GlyphSetHistories(Unit):
+class GlyphSetHistories(FSUnit):
     name = "glyphset-histories"
     rule = ("all operation histories on a real GlyphSet (UFO 3, default options) in a fresh /dev/shm directory: ops writeGlyph(name, record) "
-            "for 18 hostile names x 3 records (rich: all point types, components, anchors, guidelines, lib, image, unicodes, note / empty / advance only), "
+            "for 19 hostile names x 3 records (rich: all point types, components, anchors, guidelines, lib, image, unicodes, note / empty / advance only), "
             "deleteGlyph(name), writeContents, rebuild (new GlyphSet on the directory), writeLayerInfo(3 values); depth 3 over the full alphabet "
             "(thorough: plus depth 4 over the 8-name core alphabet x 2 records); model = dicts name->file token->record; at the end state of every history: "
             "names and name->file mapping equal the model, readGlyph of every name equals the written record, absent name raises KeyError, "
@@ -277,11 +322,22 @@ class GlyphSetHistories(Unit):
                           "delete then rewrite", "rebuild in sync", "rebuild out of sync", "layerinfo removed", "fresh reader compared")
     chunk = 6
 
+    RECORD_NAMES = ["a", "A", "a/B", "a:B"]
+
     def space(self, tier):
-        full = (N.FS_NAMES, [0, 1, 2], 3)
-        if tier == "quick":
-            return [full]
-        return [full, (N.CORE_NAMES, [0, 2], 4)]
+        """(names, record indices, depth).  Index 0..1 are the quick spaces; thorough adds the
+        full product at depth 3 and depth 4 over the small alphabets."""
+        sp = [
+            (N.FS_NAMES, [2], 3),  # every name, one cheap record: name interplay
+            (self.RECORD_NAMES, [0, 1, 2], 3),  # every record, names that share / overwrite files
+        ]
+        if tier == "thorough":
+            sp += [
+                (N.FS_NAMES, [0, 1, 2], 3),
+                (N.CORE_NAMES, [2], 4),
+                (self.RECORD_NAMES, [0, 1, 2], 4),
+            ]
+        return sp
 
     def cases(self, tier, seed):
         for si, (names, recs, depth) in enumerate(self.space(tier)):
@@ -300,13 +356,12 @@ class GlyphSetHistories(Unit):
 
             yield from rec_enum([], frozenset(), frozenset())
 
-    def setup(self, tier, seed):
-        self._spaces = {"quick": self.space("quick"), "thorough": self.space("thorough")}
-        self._tier = tier
-
     def check(self, case, rec):
-        si, prefix = case
-        names, recs, depth = self.space("thorough")[si] if si else self.space("quick")[0]
+        si, prefix = case[:2]
+        names, recs, depth = self.space("thorough")[si]
+        if len(case) == 3:  # replay form: exactly this history
+            self.run_history(names, prefix, rec, si)
+            return
         ops = gs_ops(names, recs)
         mem, committed = frozenset(), frozenset()
         for op in prefix:
@@ -316,25 +371,26 @@ class GlyphSetHistories(Unit):
             if not abstract_enabled(op, mem, committed):
                 continue
             n += 1
-            self.run_history(names, prefix + [op], rec)
+            self.run_history(names, prefix + [op], rec, si)
         rec.evals(max(0, n - 1))
         rec.nontrivial_n(n)
 
     # -- one history on a fresh directory ---------------------------------
-    def run_history(self, names, history, rec):
+    def run_history(self, names, history, rec, si):
+        self._si = si
         with TempDir() as d:
             gs = GlyphSet(d)
             m = GSModel()
             ok = True
             box = [gs]
             for k, op in enumerate(history):
-                ok = self.apply(box, m, d, names, op, rec, history[: k + 1])
+                ok = self.apply(box, m, d, names, op, rec, [si, history[: k + 1], "exact"])
                 gs = box[0]
                 if ok is not True:
                     break
                 rec.transition()
             if ok is True:
-                self.verify(gs, m, d, names, rec, history)
+                self.verify(gs, m, d, names, rec, [si, history, "exact"])
                 rec.state(m.key())
                 rec.trace()
             elif ok == "disabled":
@@ -385,6 +441,7 @@ class GlyphSetHistories(Unit):
                 else:
                     rec.witness("rebuild out of sync")
                 m.mem = dict(m.committed or {})
+                m.opened_with_contents = m.committed is not None
             elif kind == "li":
                 gs.writeLayerInfo(make_layerinfo(op[1]))
                 if LAYERINFO[op[1]]:
@@ -470,7 +527,7 @@ class GlyphSetHistories(Unit):
             extra = sorted(set(listing) - exp_listing)
             missing = sorted(exp_listing - set(listing))
             if extra == ["layerinfo.plist"] and not missing:
-                fkey = "glyphset:layerinfo-not-removed"
+                fkey = "glyphset:layerinfo-not-removed:" + ("opened-with-contents.plist" if m.opened_with_contents else "opened-without-contents.plist")
             else:
                 fkey = "glyphset:directory-differs"
             rec.violation(fkey, "directory has extra %r, lacks %r" % ([N.short(x, 30) for x in extra], [N.short(x, 30) for x in missing]), case=hist)
@@ -515,11 +572,1128 @@ class GlyphSetHistories(Unit):
         exp_info = LAYERINFO[m.layerinfo] if m.layerinfo is not None else {}
         dd = G.vdiff(info.__dict__, exp_info, "layerinfo")
         if dd:
-            rec.violation("glyphset:layerinfo-stale" if not exp_info else "glyphset:layerinfo-differs", "readLayerInfo: %s" % dd, case=hist)
+            if not exp_info:
+                fkey = "glyphset:layerinfo-not-removed:" + ("opened-with-contents.plist" if m.opened_with_contents else "opened-without-contents.plist")
+            else:
+                fkey = "glyphset:layerinfo-differs"
+            rec.violation(fkey, "readLayerInfo: %s" % dd, case=hist)
 
     def bounds(self, tier, seed):
         return {"spaces": [{"names": len(n), "records": len(r), "depth": dpt} for n, r, dpt in self.space(tier)],
                 "layerinfo_values": len(LAYERINFO)}
+
+
+# =============================================================== E1c  UFOWriter layer histories
+from fontTools.ufoLib import UFOReader, UFOWriter, UFOLibError  # noqa: E402
+
+LAYER_LONG = "layerlong." * 24 + "abcdefgh"  # 248 characters: exactly fills 255 after "glyphs."
+LAYER_NAMES = ["public.default", "a", "A", "a_", "con", "a/B", "a:B", "a*B", LAYER_LONG, LAYER_LONG + "x", "İ", "b" * 244 + ".con"]
+LAYER_CORE = ["public.default", "A", "a_", "a/B", "a:B"]
+
+
+class LayerModel:
+    def __init__(self):
+        self.layers = {}  # ordered: layer name -> directory token
+        self.marker = {}  # directory token -> advance width written into glyph "a"
+        self.committed = None  # layercontents.plist as last written
+        self.next_marker = 100
+
+    def default_name(self):
+        return next((n for n, d in self.layers.items() if d == "glyphs"), None)
+
+    def valid(self):
+        dn = self.default_name()
+        return dn is not None and ("public.default" not in self.layers or dn == "public.default")
+
+    def key(self):
+        return [list(self.layers.items()), self.committed]
+
+
+def layer_ops(names):
+    ops = []
+    for i in range(len(names)):
+        for dflt in (False, True):
+            ops.append(["g", i, dflt])
+    for i in range(len(names)):
+        for j in range(len(names)):
+            for dflt in (False, True):
+                ops.append(["mv", i, j, dflt])
+    for i in range(len(names)):
+        ops.append(["rm", i])
+    ops.append(["wl"])
+    ops.append(["ro"])
+    return ops
+
+
+class LayerHistories(FSUnit):
+    name = "ufowriter-layer-histories"
+    rule = ("all operation histories on a real UFOWriter (format 3) in a fresh directory: getGlyphSet(layer, defaultLayer in {F,T}) + write one marked glyph, "
+            "renameGlyphSet(old, new, defaultLayer), deleteGlyphSet(layer), writeLayerContents, reopen (new UFOWriter on the path, only when layercontents.plist is in sync and valid); "
+            "layer names from a 12-name hostile alphabet (public.default, case variants, reserved, '/' vs ':' clash, 248/249-char names, U+0130, reserved part at the clip point); "
+            "quick: depth 2 over all names + depth 3 over 5 core names, thorough: depth 3 over all names + depth 4 over 3 names; an operation may be refused with UFOLibError "
+            "(then nothing may change); after every history: layerContents equals the model, no two layers share a directory, directory names are 'glyphs' or legal 'glyphs.*' <=255 chars "
+            "distinct ignoring case, the UFO directory listing equals the model, every layer directory holds its own marked glyph, layercontents.plist (stdlib reader) equals the last commit, "
+            "and a UFOReader returns the same layer order, default layer and glyphs; distinct = each history")
+    required_witnesses = ("layer clash resolved by counter", "long layer name clipped", "default switched by rename", "operation refused", "reader compared", "reopened")
+    chunk = 4
+
+    def space(self, tier):
+        sp = [(LAYER_NAMES, 2), (LAYER_CORE, 3)]
+        if tier == "thorough":
+            sp += [(LAYER_NAMES, 3), (LAYER_CORE[:3], 4)]
+        return sp
+
+    @staticmethod
+    def a_enabled(op, layers):
+        if op[0] == "mv":
+            return op[1] in layers
+        if op[0] == "rm":
+            return op[1] in layers
+        return True
+
+    @staticmethod
+    def a_apply(op, layers):
+        # name-level over-approximation (refusals are decided at run time)
+        if op[0] == "g":
+            return layers | {op[1]}
+        if op[0] == "mv":
+            return (layers - {op[1]}) | {op[2]} | ({op[1]} if False else set())
+        if op[0] == "rm":
+            return layers - {op[1]}
+        return layers
+
+    def cases(self, tier, seed):
+        for si, (names, depth) in enumerate(self.space(tier)):
+            ops = layer_ops(names)
+
+            def rec_enum(prefix, may):
+                yield [si, prefix]
+                if len(prefix) >= depth - 1:
+                    return
+                for op in ops:
+                    if op[0] in ("mv", "rm") and op[1] not in may:
+                        continue
+                    if op[0] == "g":
+                        m2 = may | {op[1]}
+                    elif op[0] == "mv":
+                        m2 = may | {op[2]}  # a refused rename keeps the old name
+                    else:
+                        m2 = may
+                    yield from rec_enum(prefix + [op], m2)
+
+            yield from rec_enum([], frozenset())
+
+    def check(self, case, rec):
+        si, prefix = case[:2]
+        names, depth = self.space("thorough")[si]
+        if len(case) == 3:  # replay form: exactly this history
+            self.run_history(names, prefix, rec, si)
+            return
+        for op in layer_ops(names):
+            self.run_history(names, prefix + [op], rec, si)
+
+    def run_history(self, names, history, rec, si):
+        self._si = si
+        with TempDir() as d:
+            path = os.path.join(d, "F.ufo")
+            w = UFOWriter(path)
+            m = LayerModel()
+            box = [w]
+            status = True
+            for k, op in enumerate(history):
+                status = self.apply(box, m, path, names, op, rec, [si, history[: k + 1], "exact"])
+                if status is not True:
+                    break
+                rec.transition()
+            if status != "disabled":
+                rec.evals(1)
+            if status is True:
+                rec.nontrivial(history)
+                self.verify(box[0], m, path, rec, [si, history, "exact"])
+                rec.state(m.key())
+                rec.trace()
+            box[0].close()
+
+    def apply(self, box, m, path, names, op, rec, hist):
+        w = box[0]
+        kind = op[0]
+        before = (dict(w.layerContents), sorted(os.listdir(path)))
+        try:
+            if kind == "g":
+                nm = names[op[1]]
+                gs = w.getGlyphSet(nm, defaultLayer=op[2])
+                dtok = w.layerContents.get(nm)
+                marker = m.next_marker
+                m.next_marker += 1
+                g = G.GlyphObj()
+                g.width = marker
+                gs.writeGlyph("a", g)
+                gs.writeContents()
+                gs.close()
+                m.layers[nm] = dtok
+                m.marker[dtok] = marker
+            elif kind == "mv":
+                old, new = names[op[1]], names[op[2]]
+                if old not in m.layers:
+                    return "disabled"
+                was_default = m.layers[old] == "glyphs"
+                w.renameGlyphSet(old, new, defaultLayer=op[3])
+                dtok = w.layerContents.get(new)
+                olddir = m.layers[old]
+                if old != new:
+                    del m.layers[old]
+                    m.layers[new] = dtok
+                else:
+                    m.layers[new] = dtok
+                if dtok != olddir:
+                    m.marker[dtok] = m.marker.pop(olddir)
+                    if (dtok == "glyphs") != was_default:
+                        rec.witness("default switched by rename")
+            elif kind == "rm":
+                nm = names[op[1]]
+                if nm not in m.layers:
+                    return "disabled"
+                w.deleteGlyphSet(nm)
+                m.marker.pop(m.layers.pop(nm), None)
+            elif kind == "wl":
+                w.writeLayerContents()
+                m.committed = [[n, dd] for n, dd in m.layers.items()]
+            elif kind == "ro":
+                if m.committed is None or m.committed != [[n, dd] for n, dd in m.layers.items()] or not m.valid():
+                    return "disabled"
+                w.close()
+                w = box[0] = UFOWriter(path)
+                rec.witness("reopened")
+        except UFOLibError as e:
+            after = (dict(w.layerContents), sorted(os.listdir(path)))
+            if after != before:
+                rec.violation("layers:refused-operation-changed-state:%s" % kind, "%r refused (%s) but layerContents/listing changed: %r -> %r" % (op, e, before, after), case=hist)
+                return "failed"
+            rec.witness("operation refused")
+            return True
+        except Exception as e:
+            nm = names[op[2]] if kind == "mv" else names[op[1]] if kind in ("g", "rm") else ""
+            dtok = w.layerContents.get(nm)
+            import errno
+
+            if (dtok is not None and len(dtok) > N.MAX_LEN) or (isinstance(e, OSError) and e.errno == errno.ENAMETOOLONG):
+                # the directory name chosen for the layer does not fit (the OS refuses > 255 bytes)
+                fkey = filename_fkey("ufoLib", "too-long", nm, dtok or "", False, 7)
+            elif kind == "mv" and op[1] == op[2] and op[3] and m.default_name() not in (None, names[op[1]]):
+                fkey = "layers:rename-to-default-while-another-default-exists:%s" % type(e).__name__
+            else:
+                fkey = "layers:exception:%s:%s" % (type(e).__name__, kind)
+            rec.violation(fkey, "operation %r failed with %r (directory %s)" % ([kind] + [N.short(names[i]) if isinstance(i, int) and not isinstance(i, bool) else i for i in op[1:]], e, N.short(dtok or "", 40)), case=hist)
+            return "failed"
+        return True
+
+    def verify(self, w, m, path, rec, hist):
+        if list(w.layerContents.items()) != list(m.layers.items()) and dict(w.layerContents) != m.layers:
+            rec.violation("layers:layerContents-differ", "%r vs model %r" % (short_map(w.layerContents), short_map(m.layers)), case=hist)
+            return
+        seen = {}
+        for nm, dtok in m.layers.items():
+            if dtok == "glyphs":
+                pass
+            elif not dtok.startswith("glyphs."):
+                rec.violation("layers:directory-prefix", "%s -> %s" % (N.short(nm), N.short(dtok, 40)), case=hist)
+            for r in N.illegal_reasons(dtok, "ufoLib", "glyphs.", ""):
+                counter = dtok[-15:].isdigit() and len(dtok) > 22
+                rec.violation(filename_fkey("ufoLib", r, nm, dtok, counter, 7), "layer %s is stored in %s (%d chars): %s" % (N.short(nm), N.short(dtok, 40), len(dtok), r), case=hist)
+            low = dtok.lower()
+            if low in seen:
+                same = dtok == m.layers[seen[low]]
+                rec.violation("layers:directory-shared" if same else "layers:directory-not-unique-ignoring-case",
+                              "layers %s and %s use %s" % (N.short(seen[low]), N.short(nm), N.short(dtok, 40)), case=hist)
+            seen[low] = nm
+            if dtok[-15:].isdigit() and len(dtok) > 22:
+                rec.witness("layer clash resolved by counter")
+            if len(dtok) == 255 and len(nm) > 248:
+                rec.witness("long layer name clipped")
+        listing = sorted(os.listdir(path))
+        exp = {"metainfo.plist"} | set(m.layers.values())
+        if m.committed is not None:
+            exp.add("layercontents.plist")
+        if listing != sorted(exp):
+            rec.violation("layers:directory-listing", "UFO holds %r, model %r" % ([N.short(x, 30) for x in listing], [N.short(x, 30) for x in sorted(exp)]), case=hist)
+            return
+        for nm, dtok in m.layers.items():
+            rec.transition()
+            try:
+                root = StdET.parse(os.path.join(path, dtok, "a.glif")).getroot()
+                width = root.find("advance").get("width")
+            except Exception as e:
+                rec.violation("layers:glyph-lost", "layer %s (%s): %r" % (N.short(nm), N.short(dtok, 40), e), case=hist)
+                continue
+            if width != str(m.marker[dtok]):
+                rec.violation("layers:glyph-of-other-layer", "layer %s (%s) holds the glyph marked %s, expected %s" % (N.short(nm), N.short(dtok, 40), width, m.marker[dtok]), case=hist)
+        if m.committed is not None:
+            with open(os.path.join(path, "layercontents.plist"), "rb") as f:
+                disk = std_plistlib.load(f)
+            if disk != m.committed:
+                rec.violation("layers:layercontents.plist-differs", "%r vs %r" % (disk, m.committed), case=hist)
+            if m.committed == [[n, dd] for n, dd in m.layers.items()] and m.valid():
+                rec.witness("reader compared")
+                r = UFOReader(path)
+                try:
+                    if r.getLayerNames() != list(m.layers) or r.getDefaultLayerName() != m.default_name():
+                        rec.violation("layers:reader-names", "reader: %r default %r; model %r default %r" % (r.getLayerNames(), r.getDefaultLayerName(), list(m.layers), m.default_name()), case=hist)
+                    for nm, dtok in m.layers.items():
+                        rec.transition()
+                        gs = r.getGlyphSet(nm)
+                        g = G.GlyphObj()
+                        gs.readGlyph("a", g)
+                        if getattr(g, "width", None) != m.marker[dtok]:
+                            rec.violation("layers:reader-glyph", "layer %s: width %r, expected %r" % (N.short(nm), getattr(g, "width", None), m.marker[dtok]), case=hist)
+                    g = G.GlyphObj()
+                    r.getGlyphSet().readGlyph("a", g)
+                    if g.width != m.marker["glyphs"]:
+                        rec.violation("layers:reader-default-glyph", "default glyph set returns width %r" % g.width, case=hist)
+                except UFOLibError as e:
+                    rec.violation("layers:reader-refuses", "UFOReader on a committed valid layer set: %s" % e, case=hist)
+                finally:
+                    r.close()
+
+    def bounds(self, tier, seed):
+        return {"spaces": [{"names": len(n), "depth": dpt} for n, dpt in self.space(tier)]}
+
+
+# =============================================================== E2a  designspace documents
+import re  # noqa: E402
+from fractions import Fraction  # noqa: E402
+
+from fontTools.designspaceLib import DesignSpaceDocument, DesignSpaceDocumentError  # noqa: E402
+from oracles import c19_dsdoc as D  # noqa: E402
+
+
+class DesignspaceDocs(Unit):
+    name = "designspace-documents"
+    rule = ("designspace documents = a base document (2 mapped/plain axes, 2 sources, 1 instance, 1 rule) changed by every set of <=2 (thorough <=3) of %d deviations "
+            "(axis kinds/maps/labels/ordering/hidden, axis mappings, location labels, 0..2 rules with 0..2 condition sets, 1..3 sources with every flag, 0..2 instances with every "
+            "name/location form, 0..2 variable fonts with every axis-subset form, nested lib) x declared format {4.1, 5.0}; fromstring(tostring(doc)) compared field by field with "
+            "the expectation computed from the spec (numbers by value, format 4 completes locations, version-5-only data forces format 5); second generation text is a fixed point; "
+            "distinct = each (format, deviation set)" % len(D.DEVIATIONS))
+    required_witnesses = ("format 4 written", "format 5 written", "format 5.1 written", "format raised by content", "discrete axis", "anisotropic location",
+                          "location completed (format 4)", "variable font", "nested lib", "localised names", "axis labels")
+    chunk = 40
+
+    def cases(self, tier, seed):
+        n = len(D.DEVIATIONS)
+        k = 2 if tier == "quick" else 3
+        for fmt in ("4.1", "5.0"):
+            for size in range(0, k + 1):
+                for idxs in itertools.combinations(range(n), size):
+                    yield [fmt, list(idxs)]
+
+    def check(self, case, rec):
+        fmt, idxs = case
+        names = [D.DEVIATIONS[i][0] for i in idxs]
+        suspects = [nm for nm in names if nm.startswith("suspect-")][-1:]  # they all replace the variable fonts: the last one is in effect
+        spec = D.apply_deviations(fmt, idxs)
+        exp = D.expected(spec)
+        doc = D.build(spec)
+        rec.nontrivial()
+        try:
+            text = doc.tostring()
+        except Exception as e:
+            rec.violation("designspace:write-error:%s:%s" % (type(e).__name__, "+".join(suspects) or "plain"), "tostring failed for %s %r: %r" % (fmt, names, e))
+            return
+        try:
+            doc2 = DesignSpaceDocument.fromstring(text)
+        except Exception as e:
+            rec.violation("designspace:unreadable:%s:%s" % (type(e).__name__, "+".join(suspects) or "plain"),
+                          "the document written for format %s with %r cannot be read back: %s: %s" % (fmt, names, type(e).__name__, e), observed=text.decode("utf-8", "replace"))
+            return
+        obs = D.extract(doc2)
+        dd = D.vdiff(obs, exp)
+        if dd:
+            field = re.sub(r"\[\d+\]", "[]", dd.split(":")[0]).strip()
+            rec.violation("designspace:differs:%s%s" % (field, (":" + "+".join(suspects)) if suspects else ""),
+                          "format %s, deviations %r: read-back differs at %s" % (fmt, names, dd), observed=text.decode("utf-8", "replace"))
+        eff = D.effective_format(spec)
+        if doc2.formatTuple != eff:
+            rec.violation("designspace:format", "written as %r, expected %r (declared %s)" % (doc2.formatTuple, eff, fmt))
+        text2 = doc2.tostring()
+        if text2 != text:
+            rec.violation("designspace:second-generation-differs", "format %s, deviations %r: writing the read document gives different text" % (fmt, names),
+                          observed=text2.decode("utf-8", "replace"), expected=text.decode("utf-8", "replace"))
+        # witnesses from the spec / text
+        rec.witness("format %s written" % ("4" if eff < (5, 0) else "5" if eff == (5, 0) else "5.1"))
+        if eff > tuple(int(x) for x in fmt.split(".")):
+            rec.witness("format raised by content")
+        if any(a["kind"] == "discrete" for a in spec["axes"]):
+            rec.witness("discrete axis")
+        if b"yvalue=" in text:
+            rec.witness("anisotropic location")
+        if eff < (5, 0) and any(len(x["designLocation"]) < len(spec["axes"]) for x in spec["sources"] + spec["instances"]):
+            rec.witness("location completed (format 4)")
+        if spec["variableFonts"]:
+            rec.witness("variable font")
+        if b"<dict>" in text and b"<array>" in text:
+            rec.witness("nested lib")
+        if b"xml:lang" in text:
+            rec.witness("localised names")
+        if b"<labels" in text:
+            rec.witness("axis labels")
+        rec.outcome(text)
+
+    def bounds(self, tier, seed):
+        return {"deviations": len(D.DEVIATIONS), "deviation_bound": 2 if tier == "quick" else 3, "formats": ["4.1", "5.0"]}
+
+
+# =============================================================== E3  axis maps
+from fontTools.designspaceLib import AxisDescriptor, DiscreteAxisDescriptor  # noqa: E402
+
+
+def monotone_maps():
+    """Every map with 1..4 knots on the 5x5 lattice {0..4}^2, inputs strictly increasing,
+    outputs strictly increasing / strictly decreasing / weakly increasing (flat segments)."""
+    for k in range(1, 5):
+        for ins in itertools.combinations(range(5), k):
+            seen = set()
+            for outs in itertools.combinations(range(5), k):
+                yield "inc", list(zip(ins, outs))
+                seen.add(outs)
+                if k > 1:
+                    yield "dec", list(zip(ins, outs[::-1]))
+            for outs in itertools.combinations_with_replacement(range(5), k):
+                if outs not in seen:
+                    yield "flat", list(zip(ins, outs))
+
+
+class AxisMaps(Unit):
+    name = "axis-maps"
+    rule = ("every monotone axis map with 1..4 knots on the 5x5 integer lattice (strictly increasing, strictly decreasing, weakly increasing with flat segments) x scale {1, 1/3 (non-dyadic floats)}: "
+            "map_forward(v) equals the exact piecewise-linear value (Fractions, 1e-9) on the half-step lattice from -1 to 5; for strict maps map_backward(map_forward(v)) == v "
+            "(increasing: whole lattice incl. the slope-1 continuation outside; decreasing: inside the knot range) and map_forward(map_backward(d)) == d; for flat maps forward(backward(d)) == d "
+            "inside the range; DesignSpaceDocument.map_forward/map_backward on dict locations over two such axes incl. missing keys (default) and anisotropic tuples; discrete axes: every "
+            "injective value map; distinct = each (map, scale)")
+    required_witnesses = ("increasing", "decreasing", "flat segment", "outside range", "discrete", "document level")
+    chunk = 40
+
+    def cases(self, tier, seed):
+        for kind, knots in monotone_maps():
+            for scale in (1, 3):
+                yield [kind, knots, scale]
+        for perm in itertools.permutations(range(3)):
+            yield ["discrete", [[i, p] for i, p in enumerate(perm)], 1]
+
+    def check(self, case, rec):
+        kind, knots, scale = case
+        rec.nontrivial()
+        if kind == "discrete":
+            ax = DiscreteAxisDescriptor(tag="ITAL", name="d", values=[0, 1, 2], default=0, map=[(i, o * 10 + 5) for i, o in knots])
+            for i, o in knots:
+                if ax.map_forward(i) != o * 10 + 5 or ax.map_backward(o * 10 + 5) != i or ax.map_backward((o * 10 + 5, 99)) != i:
+                    rec.violation("axismap:discrete", "map %r: forward(%r)=%r backward=%r" % (ax.map, i, ax.map_forward(i), ax.map_backward(o * 10 + 5)))
+            if ax.map_forward(7) != 7 or ax.map_backward(7) != 7:
+                rec.violation("axismap:discrete-unmapped", "unmapped value must be returned unchanged")
+            rec.witness("discrete")
+            return
+        fk = [(Fraction(i, scale), Fraction(o, scale)) for i, o in knots]
+        m = [(float(a), float(b)) for a, b in fk]
+        ax = AxisDescriptor(tag="wght", name="w", minimum=m[0][0], default=m[0][0], maximum=m[-1][0], map=list(m))
+        lo, hi = fk[0][0], fk[-1][0]
+        tol = 1e-9
+        rec.witness({"inc": "increasing", "dec": "decreasing", "flat": "flat segment"}[kind])
+        for h in range(-2, 11):
+            v = Fraction(h, 2 * scale)
+            inside = lo <= v <= hi
+            if not inside:
+                rec.witness("outside range")
+            f = ax.map_forward(float(v))
+            ef = D.pl_map(fk, v)
+            if abs(f - float(ef)) > tol:
+                rec.violation("axismap:forward:%s" % kind, "map %r forward(%r) = %r, exact %s" % (m, float(v), f, ef))
+                continue
+            if kind == "inc" or (kind == "dec" and inside):
+                b = ax.map_backward(f)
+                if abs(b - float(v)) > tol:
+                    rec.violation("axismap:backward-forward:%s:%s" % (kind, "inside" if inside else "outside"), "map %r: backward(forward(%r)=%r) = %r" % (m, float(v), f, b))
+                if abs(ax.map_backward((f, 12345.0)) - float(v)) > tol:
+                    rec.violation("axismap:backward-anisotropic", "map %r: backward((%r, y))" % (m, f))
+        # right inverse on the design side, inside the range of outputs
+        outs = sorted(o for _, o in fk)
+        for h in range(0, 9):
+            d = Fraction(h, 2 * scale)
+            if not outs[0] <= d <= outs[-1]:
+                continue
+            u = ax.map_backward(float(d))
+            back = ax.map_forward(u)
+            if abs(back - float(d)) > tol:
+                rec.violation("axismap:forward-backward:%s" % kind, "map %r: forward(backward(%r)=%r) = %r" % (m, float(d), u, back))
+        # document level
+        doc = DesignSpaceDocument()
+        doc.addAxis(ax)
+        doc.addAxis(AxisDescriptor(tag="wdth", name="x", minimum=0, default=1, maximum=4, map=[(0.0, 10.0), (4.0, 50.0)]))
+        rec.witness("document level")
+        for h in (0, 3, 8):
+            v = Fraction(h, 2 * scale)
+            if not lo <= v <= hi:
+                continue
+            loc = doc.map_forward({"w": float(v)})
+            exp = {"w": float(D.pl_map(fk, v)), "x": 20.0}
+            if set(loc) != {"w", "x"} or abs(loc["w"] - exp["w"]) > tol or abs(loc["x"] - exp["x"]) > tol:
+                rec.violation("axismap:document-forward", "map_forward({'w': %r}) = %r expected %r" % (float(v), loc, exp))
+                continue
+            if kind != "flat":
+                back = doc.map_backward({"w": (loc["w"], 7.0), "x": loc["x"]})
+                if abs(back["w"] - float(v)) > tol or abs(back["x"] - 1.0) > tol:
+                    rec.violation("axismap:document-backward", "map_backward(%r) = %r expected w=%r x=1" % (loc, back, float(v)))
+                back = doc.map_backward({"w": loc["w"]})
+                if back.get("x") != 1:
+                    rec.violation("axismap:document-backward-default", "missing axis must come back as its user default: %r" % back)
+
+
+# =============================================================== E2b  GLIF records
+from fontTools.ufoLib.glifLib import readGlyphFromString, writeGlyphToString  # noqa: E402
+
+ABSENT = "__absent__"
+FULL_IMAGE = {"fileName": "dir/é <&>.png", "xScale": 0.5, "xyScale": 0.25, "yxScale": -0.25, "yScale": 2, "xOffset": 10, "yOffset": -20.5, "color": "1,0.5,0,1"}
+OPEN_CONTOUR = ["contour", None, [[0, 0, "move", False, None, None], [10, 0, "line", False, None, None], [20, 5, None, False, None, None],
+                                   [30, 5, None, False, None, None], [40, 0, "curve", True, "nm<&>", None]]]
+CLOSED_CONTOUR = ["contour", "cid", [[0, 0, "line", False, None, "pid1"], [0, 100.5, "line", True, None, None], [50, 150, None, False, None, None],
+                                     [100, 100, "qcurve", True, None, "pid2"], [120, 50, None, False, None, None], [100, 20, None, False, None, None],
+                                     [100, 0, "curve", False, "é", None]]]
+GLIF_FIELDS = [
+    ("width", [ABSENT, 0, 500, 500.5, -20, 1e-07, 1e22, 0.1]),
+    ("height", [ABSENT, 0, 1000, -0.5]),
+    ("unicodes", [ABSENT, [], [0x41], [0x41, 0x42, 0x41], [0, 0x10FFFF], [0x1F600]]),
+    ("note", [ABSENT, "plain", "x<&>\"'y", "é\U0001d49c", "two\nlines", "  indented\n\n    blank line above  ", "tab\there"]),
+    ("image", [ABSENT, {"fileName": "a.png"}, FULL_IMAGE, {"fileName": "b.png", "xScale": 1, "xyScale": 0, "yxScale": 0, "yScale": 1, "xOffset": 0, "yOffset": 0},
+               {"fileName": "c.png", "xOffset": 0.5}]),
+    ("guidelines", [ABSENT, [], [{"x": 10}], [{"y": -20.5}], [{"x": 1, "y": 2, "angle": 0}], [{"x": 1.5, "y": 2, "angle": 360}],
+                    [{"x": 0, "name": "g<&>é", "color": "0,0,0,0", "identifier": "gid"}], [{"x": 10, "identifier": "g1"}, {"y": 10, "identifier": "g2"}]]),
+    ("anchors", [ABSENT, [], [{"x": 1, "y": 2, "name": "top"}], [{"x": 1, "y": 2}], [{"x": 0, "y": 0, "name": "t<&>é", "color": "1,1,1,1", "identifier": "aid"}],
+                 [{"x": 0.5, "y": -1e-07, "name": "f"}], [{"x": 1, "y": 1, "name": "dup"}, {"x": 2, "y": 2, "name": "dup"}]]),
+    ("lib", [ABSENT, {}, {"k": 1}, D.NESTED_LIB, {"public.markColor": "1,0,0,1", "a.b": [{"c": [True, 0.5, "s"]}]}]),
+    ("outline", [None, [], [OPEN_CONTOUR], [CLOSED_CONTOUR], [["contour", None, [[1, 1, None, False, None, None], [2, 2, None, False, None, None]]]],
+                 [["component", "a", [1, 0, 0, 1, 0, 0], None], ["component", "b é", [0.5, 0.25, -0.25, 2, 10, -20.5], "cmp"]],
+                 [["contour", None, []]], [["contour", None, [[5, 5, "move", False, "anchorlike", None]]]],
+                 [OPEN_CONTOUR, CLOSED_CONTOUR, ["component", "c", [1, 0, 0, 1, 1e-07, 0], None]],
+                 [["contour", None, [[0, 0, "move", False, None, None]]]]]),
+]
+GLIF_BASE = {"width": 500, "unicodes": [0x41], "note": "base", "image": {"fileName": "a.png"}, "guidelines": [{"x": 10}], "anchors": [{"x": 1, "y": 2, "name": "top"}],
+             "lib": {"k": 1}, "outline": [OPEN_CONTOUR]}
+
+
+def glif_expected(rec, fmt, name):
+    """GLIF 1 stores anchors as named one-point 'move' contours, so such contours *are*
+    anchors when read; unnamed anchors do not exist in GLIF 1."""
+    exp = G.expected(rec, fmt, name)
+    if fmt == 1:
+        anchors, outline = [], []
+        for el in exp["outline"]:
+            if el[0] == "contour" and len(el[2]) == 1 and el[2][0][2] == "move" and el[2][0][4] is not None:
+                anchors.append({"x": el[2][0][0], "y": el[2][0][1], "name": el[2][0][4]})
+            else:
+                outline.append(el)
+        anchors += exp.get("anchors", [])
+        exp["outline"] = outline
+        if anchors:
+            exp["anchors"] = anchors
+        else:
+            exp.pop("anchors", None)
+    return exp
+
+
+class GlifRecords(Unit):
+    name = "glif-records"
+    rule = ("glyph records = a base record with every choice of <=2 (thorough <=3) of the 9 fields {width, height, unicodes, note, image, guidelines, anchors, lib, outline} replaced by "
+            "each value of its boundary alphabet (absent/zero/float/duplicates/XML specials/non-BMP/all point types/identifiers/transforms/empty containers) x GLIF format {1,2} x glyph name "
+            "{a, 'é <&>\"'}: readGlyphFromString(writeGlyphToString(r)) equals r restricted to what the format stores (GLIF 1: no image/guidelines/identifiers, anchors as named move "
+            "points); numbers by value; notes verbatim when single-line, modulo white space otherwise; distinct = each (format, name, record)")
+    required_witnesses = ("format 1", "format 2", "anchors in GLIF 1 outline", "identifier kept", "float coordinate", "lib with data and date", "empty outline element", "unicode deduplicated")
+    chunk = 150
+
+    def cases(self, tier, seed):
+        k = 2 if tier == "quick" else 3
+        nf = len(GLIF_FIELDS)
+        for fmt in (2, 1):
+            for size in range(0, k + 1):
+                for fields in itertools.combinations(range(nf), size):
+                    for choice in itertools.product(*[range(len(GLIF_FIELDS[f][1])) for f in fields]):
+                        yield [fmt, list(fields), list(choice)]
+
+    def check(self, case, rec):
+        fmt, fields, choice = case
+        r = {k: v for k, v in GLIF_BASE.items()}
+        for f, c in zip(fields, choice):
+            key, alts = GLIF_FIELDS[f]
+            v = alts[c]
+            if v == ABSENT:
+                r.pop(key, None)
+            else:
+                r[key] = v
+        if "outline" not in r:
+            r["outline"] = None
+        if fmt == 1 and any("name" not in a for a in r.get("anchors") or []):
+            return  # GLIF 1 has no unnamed anchors
+        rec.nontrivial()
+        for name in ("a", "é <&>\""):
+            rec.evals(1)
+            try:
+                text = writeGlyphToString(name, G.make_glyph(r), G.make_draw(r), formatVersion=fmt)
+            except Exception as e:
+                rec.violation("glif%d:write-error:%s" % (fmt, type(e).__name__), "writeGlyphToString(%r) failed: %r" % (r, e))
+                return
+            try:
+                obs = G.read_back(lambda g, p: readGlyphFromString(text, g, p))
+            except Exception as e:
+                has_ids = any((el[0] == "contour" and (el[1] is not None or any(pt[5] is not None for pt in el[2]))) or (el[0] == "component" and el[3] is not None)
+                              for el in r.get("outline") or [])
+                shape = ":outline-identifiers" if (fmt == 1 and has_ids) else ""
+                rec.violation("glif%d:read-error:%s%s" % (fmt, type(e).__name__, shape), "cannot read back %r: %r" % (r, e), observed=text)
+                return
+            exp = glif_expected(r, fmt, name)
+            dd = G.diff(obs, exp)
+            if dd:
+                field = re.split(r"[ .:\[]", dd.replace("unexpected attribute ", "").replace("attribute ", ""))[0]
+                shape = ""
+                if field == "anchors" and fmt == 1 and r.get("outline") is None:
+                    shape = ":no-outline"
+                rec.violation("glif%d:differs:%s%s" % (fmt, field, shape), "format %d glyph %r record %r: %s" % (fmt, name, r, dd), observed=text)
+        rec.witness("format %d" % fmt)
+        if fmt == 1 and r.get("anchors") and r.get("outline") is not None:
+            rec.witness("anchors in GLIF 1 outline")
+        if fmt == 2 and "identifier=" in text:
+            rec.witness("identifier kept")
+        if re.search(r'[xy]="-?\d+\.\d+"', text):
+            rec.witness("float coordinate")
+        if "<data>" in text and "<date>" in text:
+            rec.witness("lib with data and date")
+        if r.get("outline") == []:
+            rec.witness("empty outline element")
+        if r.get("unicodes") and len(set(r["unicodes"])) < len(r["unicodes"]):
+            rec.witness("unicode deduplicated")
+
+    def bounds(self, tier, seed):
+        return {"fields": {k: len(v) for k, v in GLIF_FIELDS}, "deviation_bound": 2 if tier == "quick" else 3}
+
+
+# =============================================================== E2c  plist value trees
+import datetime  # noqa: E402
+from fontTools.misc import plistlib as ft_plistlib  # noqa: E402
+from fontTools.misc import etree as ft_etree  # noqa: E402
+
+PL_ATOMS = [True, False, 0, -1, 2 ** 63 - 1, 2 ** 64 - 1, -(2 ** 63), 0.5, 1e-07, 0.1 + 0.2, -1e22,
+            datetime.datetime(2020, 1, 2, 3, 4, 5), datetime.datetime(1, 1, 1), datetime.datetime(9999, 12, 31, 23, 59, 59),
+            b"", b"\x00\xff", bytes(range(256)), "", "x", "<&>\"']]>", " lead and trail ", "line\nbreak\ttab", "é\U0001d49c", "\r\n"]
+PL_KEYS = ["k", "", "é<&> k", "z"]
+PL_SMALL = [0, True, 0.5, "x", b"\x00\xff", datetime.datetime(2020, 1, 2, 3, 4, 5)]
+
+
+def pl_level1():
+    out = [[], {}]
+    out += [[a] for a in PL_ATOMS]
+    out += [{k: a} for a in PL_ATOMS for k in PL_KEYS[:2]]
+    out += [[a, b] for a in PL_SMALL for b in PL_SMALL]
+    out += [{"k": a, "z": b} for a in PL_SMALL for b in PL_SMALL]
+    out += [{k: 1 for k in PL_KEYS}]
+    return out
+
+
+def pl_wrap(items):
+    for c in items:
+        yield [c]
+        yield {"k": c}
+        yield [0, c, "x"]
+        yield {"": c, "z": []}
+
+
+def strict_equal(a, b):
+    """Equality that keeps bool / int / float / str / bytes apart."""
+    if type(a) is not type(b):
+        return False
+    if isinstance(a, dict):
+        return a.keys() == b.keys() and all(strict_equal(a[k], b[k]) for k in a)
+    if isinstance(a, list):
+        return len(a) == len(b) and all(strict_equal(x, y) for x, y in zip(a, b))
+    return a == b
+
+
+class PlistTrees(Unit):
+    name = "plist-trees"
+    rule = ("plist value trees of depth <=3: 24 atoms (booleans, 0, -1, 2^63-1, 2^64-1, -2^63, floats incl. 1e-7 and 0.1+0.2, dates year 1..9999, data b''/binary/256 bytes, strings with "
+            "XML specials, white space, CR LF, non-BMP), lists/dicts of <=2 atoms over keys {'k','','é<&> k','z'}, wrapped in 4 container shapes per further level; "
+            "loads(dumps(v)) == v and fromtree(totree(v)) == v with exact types, for pretty_print in {T,F}, sort_keys in {T,F}; the text is also read by the stdlib plistlib (and the "
+            "stdlib's text by fontTools) with the same result; out-of-range integers raise OverflowError; distinct = each tree")
+    required_witnesses = ("depth 3", "uint64", "data wrapped over lines", "empty containers", "second reader agreed")
+    chunk = 3
+
+    def cases(self, tier, seed):
+        yield ["atoms"]
+        l1 = pl_level1()
+        for i in range(0, len(l1), 8):
+            yield ["l1", i]
+        l2 = list(pl_wrap(l1))
+        for i in range(0, len(l2), 8):
+            yield ["l2", i]
+        if tier == "thorough":
+            n3 = 4 * len(l2)
+            for i in range(0, n3, 32):
+                yield ["l3", i]
+        else:
+            # quick: depth 3 over the level-2 trees built from the small atom set only
+            yield ["l3small"]
+
+    def trees(self, case):
+        kind = case[0]
+        if kind == "atoms":
+            return list(PL_ATOMS), 0
+        l1 = pl_level1()
+        if kind == "l1":
+            return l1[case[1]: case[1] + 8], 1
+        l2 = list(pl_wrap(l1))
+        if kind == "l2":
+            return l2[case[1]: case[1] + 8], 2
+        if kind == "l3":
+            l3 = itertools.islice(pl_wrap(l2), case[1], case[1] + 32)
+            return list(l3), 3
+        small = [c for c in l1 if len(c) <= 1][:60]
+        return list(pl_wrap(pl_wrap(small))), 3
+
+    def check(self, case, rec):
+        trees, depth = self.trees(case)
+        if case[0] == "atoms":
+            for bad in (2 ** 64, -(2 ** 63) - 1):
+                try:
+                    ft_plistlib.dumps({"k": bad})
+                    rec.violation("plist:overflow-accepted", "dumps(%d) did not raise" % bad)
+                except OverflowError:
+                    pass
+        for v in trees:
+            rec.nontrivial_n(1)
+            self.one(v, rec, depth)
+        rec.evals(max(0, len(trees) - 1))
+
+    def one(self, v, rec, depth):
+        if depth == 3:
+            rec.witness("depth 3")
+        for pretty in (True, False):
+            for sort_keys in (True, False):
+                try:
+                    data = ft_plistlib.dumps(v, pretty_print=pretty, sort_keys=sort_keys)
+                    back = ft_plistlib.loads(data)
+                except Exception as e:
+                    rec.violation("plist:dumps-loads:%s" % type(e).__name__, "value %r pretty=%s: %r" % (v, pretty, e))
+                    return
+                if not strict_equal(back, v):
+                    rec.violation("plist:dumps-loads:%s" % leaf_class(v, back), "pretty=%s sort=%s: %r came back as %r" % (pretty, sort_keys, v, back), observed=data)
+                    return
+            # second opinion: the stdlib reads the same text
+            try:
+                other = std_plistlib.loads(data)
+                if not strict_equal(other, v):
+                    rec.violation("plist:stdlib-reads-differently:%s" % leaf_class(v, other), "%r read by the stdlib as %r" % (v, other), observed=data)
+                else:
+                    rec.witness("second reader agreed")
+            except Exception as e:
+                rec.violation("plist:stdlib-cannot-read:%s" % type(e).__name__, "%r: %r" % (v, e), observed=data)
+            if b"18446744073709551615" in data:
+                rec.witness("uint64")
+            if pretty and b"<data>\n" in data and data.count(b"\n") > 12:
+                rec.witness("data wrapped over lines")
+            if b"<dict/>" in data or b"<array/>" in data or b"<dict></dict>" in data:
+                rec.witness("empty containers")
+        try:
+            # (the stdlib writer itself folds CR into LF, so trees with CR are not comparable)
+            std = std_plistlib.dumps(v, fmt=std_plistlib.FMT_XML)
+            back = ft_plistlib.loads(std)
+            if "\\r" not in repr(v) and not strict_equal(back, v):
+                rec.violation("plist:reads-stdlib-text-differently:%s" % leaf_class(v, back), "%r written by the stdlib read as %r" % (v, back), observed=std)
+        except Exception as e:
+            rec.violation("plist:cannot-read-stdlib-text:%s" % type(e).__name__, "%r: %r" % (v, e))
+        for indent in (0, 2):
+            tree = ft_plistlib.totree(v, indent_level=indent)
+            back = ft_plistlib.fromtree(tree)
+            if not strict_equal(back, v):
+                rec.violation("plist:totree-fromtree:%s" % leaf_class(v, back), "%r came back as %r" % (v, back))
+            # through text, as GLIF and designspace libs do
+            text = ft_etree.tostring(tree, pretty_print=True)
+            back = ft_plistlib.fromtree(ft_etree.fromstring(text))
+            if not strict_equal(back, v):
+                rec.violation("plist:totree-text-fromtree:%s" % leaf_class(v, back), "%r came back as %r" % (v, back), observed=text)
+
+
+def leaf_class(a, b):
+    """Type name of the first differing leaf (stable key)."""
+    if type(a) is not type(b):
+        return "%s->%s" % (type(a).__name__, type(b).__name__)
+    if isinstance(a, dict):
+        if a.keys() != b.keys():
+            return "dict-keys"
+        for k in a:
+            if not strict_equal(a[k], b[k]):
+                return leaf_class(a[k], b[k])
+    if isinstance(a, list):
+        if len(a) != len(b):
+            return "list-length"
+        for x, y in zip(a, b):
+            if not strict_equal(x, y):
+                return leaf_class(x, y)
+    return type(a).__name__
+
+
+# =============================================================== E2d  fontinfo / kerning / groups / lib / features on disk
+from fontTools.ufoLib import fontInfoAttributesVersion3ValueData as _INFO3  # noqa: E402  (attribute list + declared types: alphabet only)
+from fontTools.ufoLib.kerning import lookupKerningValue  # noqa: E402
+from oracles import c19_ufodata as U  # noqa: E402
+
+
+def canon(v):
+    """tuples -> lists, so that strict comparison ignores the sequence type only."""
+    if isinstance(v, dict):
+        return {k: canon(x) for k, x in v.items()}
+    if isinstance(v, (list, tuple)):
+        return [canon(x) for x in v]
+    return v
+
+
+def info_obj(d):
+    o = Info()
+    for k, v in d.items():
+        setattr(o, k, G.lib_value(v))
+    return o
+
+
+UFO_WHAT = {
+    "kerning": (U.KERNINGS, lambda w, v: w.writeKerning(U.kerning_value(v)), lambda r: r.readKerning(), U.kerning_value, "kerning.plist"),
+    "groups": (U.GROUPS, lambda w, v: w.writeGroups(v), lambda r: r.readGroups(), lambda v: v, "groups.plist"),
+    "lib": (U.LIBS, lambda w, v: w.writeLib(G.lib_value(v)), lambda r: r.readLib(), G.lib_value, "lib.plist"),
+    # features.fea is a text file: line ends are not data
+    "features": (U.FEATURES, lambda w, v: w.writeFeatures(v), lambda r: r.readFeatures(), lambda v: v.replace("\r\n", "\n"), "features.fea"),
+    "info": ([{}, {"familyName": "A", "styleName": "B", "unitsPerEm": 1000}, {"familyName": "C"}, {"openTypeOS2Panose": [0] * 10, "guidelines": [{"x": 1}]}],
+             lambda w, v: w.writeInfo(info_obj(v)), lambda r: read_info(r), lambda v: v, "fontinfo.plist"),
+}
+
+
+def read_info(reader):
+    o = Info()
+    reader.readInfo(o)
+    return dict(o.__dict__)
+
+
+class UfoData(FSUnit):
+    name = "ufo-info-kerning-groups-lib"
+    rule = ("UFO 3 packages in a fresh directory through UFOWriter -> UFOReader: every fontinfo attribute of the UFO 3 list x its boundary alphabet (strings with XML specials/newline/empty, "
+            "ints 0/+-1/2^31, floats, booleans, every documented option list / record structure), 5 kerning dicts, 4 group dicts, 3 libs (nested, data, date, uint64), 3 feature texts; "
+            "single writes, all values at once, and every ordered pair (v1 then v2, v2 possibly empty) written with the same writer or a new writer on the same path: what the reader "
+            "returns equals the last value written, with exact types; the stdlib plist reader sees the same file; distinct = each case")
+    required_witnesses = ("info attribute read back", "float info value", "record-list info value", "kerning read back", "groups read back", "lib read back", "features read back",
+                          "overwritten by empty value", "second writer", "whole font at once")
+    chunk = 12
+
+    def cases(self, tier, seed):
+        for attr in sorted(_INFO3):
+            vals = U.values_for(attr, _INFO3[attr]["type"])
+            for i in range(len(vals)):
+                yield ["info", attr, i]
+        for what in sorted(UFO_WHAT):
+            n = len(UFO_WHAT[what][0])
+            for i in range(n):
+                yield ["single", what, i]
+            for i in range(1, n):
+                for j in range(n):
+                    for same in (True, False):
+                        yield ["pair", what, i, j, same]
+        yield ["all"]
+
+    def check(self, case, rec):
+        rec.nontrivial()
+        with TempDir() as d:
+            path = os.path.join(d, "F.ufo")
+            getattr(self, "case_" + case[0])(case, path, rec)
+
+    def case_info(self, case, path, rec):
+        _, attr, i = case
+        v = G.lib_value(U.values_for(attr, _INFO3[attr]["type"])[i])
+        w = UFOWriter(path)
+        try:
+            w.writeInfo(info_obj({attr: v}))
+        except UFOLibError as e:
+            rec.violation("ufoinfo:valid-value-rejected:%s" % attr, "writeInfo(%s=%r): %s" % (attr, v, e))
+            return
+        finally:
+            w.close()
+        r = UFOReader(path)
+        try:
+            got = read_info(r)
+        except UFOLibError as e:
+            rec.violation("ufoinfo:written-value-unreadable:%s" % attr, "readInfo after writeInfo(%s=%r): %s" % (attr, v, e))
+            return
+        finally:
+            r.close()
+        if not strict_equal(canon(got), {attr: canon(v)}):
+            rec.violation("ufoinfo:differs:%s" % attr, "wrote %s=%r, read %r" % (attr, v, got))
+        with open(os.path.join(path, "fontinfo.plist"), "rb") as f:
+            disk = std_plistlib.load(f)
+        if not strict_equal(disk, {attr: canon(v)}):
+            rec.violation("ufoinfo:file-differs:%s" % attr, "fontinfo.plist holds %r" % disk)
+        rec.witness("info attribute read back")
+        if isinstance(v, float):
+            rec.witness("float info value")
+        if isinstance(v, list) and v and isinstance(v[0], dict):
+            rec.witness("record-list info value")
+
+    def case_single(self, case, path, rec):
+        _, what, i = case
+        self.sequence(what, [i], [True], path, rec)
+
+    def case_pair(self, case, path, rec):
+        _, what, i, j, same = case
+        self.sequence(what, [i, j], [True, same], path, rec)
+
+    def sequence(self, what, idxs, same_writer, path, rec):
+        vals, write, read, conv, fname = UFO_WHAT[what]
+        w = None
+        for k, i in enumerate(idxs):
+            if w is None or not same_writer[k]:
+                if w is not None:
+                    w.close()
+                    rec.witness("second writer")
+                w = UFOWriter(path)
+                if k == 0:
+                    # a complete UFO 3 package needs the default layer and layercontents.plist
+                    gs = w.getGlyphSet()
+                    gs.writeContents()
+                    gs.close()
+                    w.writeLayerContents()
+            try:
+                write(w, vals[i])
+            except UFOLibError as e:
+                rec.violation("ufo%s:valid-value-rejected" % what, "%r: %s" % (vals[i], e))
+                w.close()
+                return
+        w.close()
+        last = vals[idxs[-1]]
+        exp = canon(conv(last))
+        r = UFOReader(path)
+        try:
+            got = read(r)
+        except UFOLibError as e:
+            rec.violation("ufo%s:unreadable" % what, "after writing %r: %s" % ([vals[i] for i in idxs], e))
+            return
+        finally:
+            r.close()
+        shape = ""
+        if len(idxs) == 2:
+            shape = ":after-overwrite-by-%s:%s-writer" % ("empty" if not last else "value", "same" if same_writer[1] else "new")
+            if not last:
+                rec.witness("overwritten by empty value")
+        ok = strict_equal(canon(got), exp) if what != "kerning" else (got == conv(last) and all(type(got[k]) is type(v) for k, v in conv(last).items()))
+        if not ok:
+            rec.violation("ufo%s:differs%s" % (what, shape), "wrote %r, read %r" % ([vals[i] for i in idxs], got))
+        exists = os.path.exists(os.path.join(path, fname))
+        if not last and exists and ok:
+            rec.violation("ufo%s:stale-file%s" % (what, shape), "%s still exists after writing an empty value" % fname)
+        rec.witness("%s read back" % what if what != "info" else "info attribute read back")
+
+    def case_all(self, case, path, rec):
+        info = {a: G.lib_value(U.values_for(a, _INFO3[a]["type"])[-1 if a in U.SPECIAL else 1]) for a in sorted(_INFO3)}
+        w = UFOWriter(path)
+        w.writeInfo(info_obj(info))
+        w.writeKerning(U.kerning_value(U.KERNINGS[3]))
+        w.writeGroups(U.GROUPS[2])
+        w.writeLib(G.lib_value(U.LIBS[2]))
+        w.writeFeatures(U.FEATURES[1])
+        gs = w.getGlyphSet()
+        gs.writeGlyph("a", G.make_glyph(G.RICH), G.make_draw(G.RICH))
+        gs.writeContents()
+        w.writeLayerContents()
+        w.close()
+        r = UFOReader(path)
+        got = read_info(r)
+        if not strict_equal(canon(got), canon(info)):
+            bad = sorted(k for k in set(got) | set(info) if not strict_equal(canon(got.get(k)), canon(info.get(k))))
+            rec.violation("ufoinfo:differs:all-at-once", "attributes %r differ" % bad)
+        if r.readKerning() != U.kerning_value(U.KERNINGS[3]) or not strict_equal(canon(r.readGroups()), canon(U.GROUPS[2])) \
+                or not strict_equal(canon(r.readLib()), canon(G.lib_value(U.LIBS[2]))) or r.readFeatures() != U.FEATURES[1]:
+            rec.violation("ufo:whole-font-differs", "kerning/groups/lib/features of a complete font differ")
+        # the kerning lookup helper against the reference semantics
+        k3, g3 = U.kerning_value(U.KERNINGS[3]), U.GROUPS[2]
+        for a in ("O", "D", "Q", "E", "F", "public.kern1.O"):
+            for b in ("O", "E", "F", "public.kern2.E"):
+                ref, _ = U.lookup_v3((a, b), k3, g3) if not a.startswith("public.") and not b.startswith("public.") else (None, None)
+                if ref is None and not (a.startswith("public.") or b.startswith("public.")):
+                    ref = 0
+                if a.startswith("public.") or b.startswith("public."):
+                    continue
+                got_v = lookupKerningValue((a, b), r.readKerning(), r.readGroups())
+                if got_v != ref:
+                    rec.violation("kerning:lookup", "lookupKerningValue(%r) = %r, reference %r" % ((a, b), got_v, ref))
+        dd = G.diff(G.read_back(lambda g, p: r.getGlyphSet().readGlyph("a", g, p)), G.expected(G.RICH, 2, "a"))
+        if dd:
+            rec.violation("ufo:whole-font-glyph", dd)
+        r.close()
+        rec.witness("whole font at once")
+
+
+# =============================================================== E2e  UFO 1/2 -> 3 up-conversion
+UPC_GROUPS = {"@MMK_L_A": ["A"], "@MMK_R_B": ["B"], "GroupA": ["A"], "other": ["A", "B"], "public.kern1.A": ["B"]}
+UPC_FIRSTS = ["A", "@MMK_L_A", "GroupA"]
+UPC_SECONDS = ["B", "@MMK_R_B", "GroupA"]
+
+
+def write_old_ufo(path, fmt, info=None, kerning=None, groups=None):
+    """A UFO 1/2 package written by hand (stdlib plist writer only)."""
+    os.makedirs(os.path.join(path, "glyphs"))
+
+    def dump(name, obj):
+        with open(os.path.join(path, name), "wb") as f:
+            std_plistlib.dump(obj, f)
+
+    dump("metainfo.plist", {"creator": "c19", "formatVersion": fmt})
+    dump(os.path.join("glyphs", "contents.plist"), {})
+    if info is not None:
+        dump("fontinfo.plist", info)
+    if kerning is not None:
+        dump("kerning.plist", kerning)
+    if groups is not None:
+        dump("groups.plist", groups)
+
+
+class UpConversion(FSUnit):
+    name = "ufo-upconversion"
+    rule = ("hand-written UFO 1 and UFO 2 packages read with UFOReader (which presents UFO 3 data): (a) fontinfo: every UFO 1 attribute of the UFO 2 conversion table x values incl. every "
+            "fontStyle/widthName/msCharSet code; every UFO 2 attribute that became integer / non-negative in UFO 3 x {750, 750.0, 750.4, -12.6, 0.5} -> integer within 0.5 (exact for "
+            "integral input, absolute value for the non-negative ones); (b) kerning+groups: every set of <=2 kerning pairs over first {glyph, @MMK_L_ group, plain group} x second "
+            "{glyph, @MMK_R_ group, plain group} x every subset of 5 groups (incl. an existing public.kern1 name that forces a unique rename): the converted data validates, "
+            "every glyph pair kerns the same under UFO 1/2 semantics before and UFO 3 semantics after (reference lookup), old groups are kept, new names carry the side prefix and are "
+            "unique, rename maps describe the renaming; distinct = each case")
+    required_witnesses = ("info v1 renamed", "info v1 code converted", "info v2 float rounded", "group renamed to kern1", "group renamed to kern2", "unique name suffix", "same group both sides",
+                          "ambiguous input skipped")
+    chunk = 40
+
+    def cases(self, tier, seed):
+        for old, new in sorted(U.V1_TO_V3.items()):
+            yield ["info1", old, new, "xé<&>"]
+        for old, new in sorted(U.V1_INT.items()):
+            for v in (0, 400, 400.0):
+                yield ["info1", old, new, v]
+        for old, new in sorted(U.V1_NUM.items()):
+            for v in (0, -12, 12.5):
+                yield ["info1", old, new, v]
+        for code in sorted(U.FONTSTYLE):
+            yield ["info1code", "fontStyle", "styleMapStyleName", code]
+        for code in sorted(U.WIDTHNAME):
+            yield ["info1code", "widthName", "openTypeOS2WidthClass", code]
+        for code in sorted(U.MSCHARSET):
+            yield ["info1code", "msCharSet", "postscriptWindowsCharacterSet", code]
+        for attr in U.V2_FLOAT_TO_INT + U.V2_NONNEG_INT:
+            for v in (750, 750.0, 750.4, -12.6, 0.5, 0):
+                yield ["info2", attr, v]
+        pairs = [[a, b] for a in UPC_FIRSTS for b in UPC_SECONDS]
+        gnames = sorted(UPC_GROUPS)
+        for fmt in (2, 1):
+            for size in range(0, 3):
+                for ps in itertools.combinations(range(len(pairs)), size):
+                    for gbits in range(1 << len(gnames)):
+                        yield ["kern", fmt, [pairs[i] for i in ps], [gnames[i] for i in range(len(gnames)) if gbits >> i & 1]]
+
+    def check(self, case, rec):
+        with TempDir() as d:
+            path = os.path.join(d, "Old.ufo")
+            if case[0] == "kern":
+                self.kern(case, path, rec)
+            else:
+                self.info(case, path, rec)
+
+    def info(self, case, path, rec):
+        rec.nontrivial()
+        kind = case[0]
+        if kind == "info2":
+            _, attr, v = case
+            write_old_ufo(path, 2, info={attr: v})
+            new = attr
+        else:
+            _, attr, new, v = case
+            write_old_ufo(path, 1, info={attr: v})
+        r = UFOReader(path)
+        try:
+            got = read_info(r)
+        except UFOLibError as e:
+            nonneg = kind == "info2" and attr in U.V2_NONNEG_INT
+            rec.violation("upconvert:info-unreadable:%s" % attr, "UFO %s fontinfo {%s: %r}: %s" % ("2" if kind == "info2" else "1", attr, v, e))
+            return
+        finally:
+            r.close()
+        if set(got) != {new}:
+            rec.violation("upconvert:info-attributes:%s" % attr, "{%s: %r} read as %r" % (attr, v, got))
+            return
+        g = got[new]
+        if kind == "info1":
+            exp = int(v) if isinstance(v, float) and v == int(v) else v  # "convert floats to ints if possible" (UFO 2 spec)
+            if g != exp or (isinstance(exp, int) and not isinstance(g, int)):
+                rec.violation("upconvert:info1-value:%s" % attr, "%r read as %s=%r" % (v, new, g))
+            if new != attr:
+                rec.witness("info v1 renamed")
+        elif kind == "info1code":
+            table = {"fontStyle": U.FONTSTYLE, "widthName": U.WIDTHNAME, "msCharSet": U.MSCHARSET}[attr]
+            if g != table[v]:
+                rec.violation("upconvert:info1-code:%s" % attr, "%r read as %s=%r, the table says %r" % (v, new, g, table[v]))
+            rec.witness("info v1 code converted")
+        else:
+            target = abs(v) if attr in U.V2_NONNEG_INT else v
+            if not isinstance(g, int) or isinstance(g, bool) or abs(g - target) > 0.5 or (target == int(target) and g != target):
+                rec.violation("upconvert:info2-integer:%s" % ("non-negative" if attr in U.V2_NONNEG_INT else "float-to-int"), "%s=%r read as %r" % (attr, v, g))
+            if isinstance(v, float) and v != int(v):
+                rec.witness("info v2 float rounded")
+
+    def kern(self, case, path, rec):
+        _, fmt, pairs, gnames = case
+        groups = {n: list(UPC_GROUPS[n]) for n in gnames}
+        flat = {}
+        for k, (a, b) in enumerate(pairs):
+            flat[(a, b)] = -10 * (k + 1)
+        nested = {}
+        for (a, b), v in flat.items():
+            nested.setdefault(a, {})[b] = v
+        # UFO 1/2 input where a glyph sits in two kerning groups of one side has no defined meaning
+        glyphs = ["A", "B"]
+        ambiguous = any(U.lookup_v2((x, y), flat, groups)[1] for x in glyphs for y in glyphs)
+        if ambiguous:
+            rec.witness("ambiguous input skipped")
+            return
+        rec.nontrivial()
+        write_old_ufo(path, fmt, kerning=nested, groups=groups)
+        r = UFOReader(path)
+        try:
+            k3 = r.readKerning()
+            g3 = r.readGroups()
+            maps = r.getKerningGroupConversionRenameMaps()
+        except UFOLibError as e:
+            rec.violation("upconvert:kerning-unreadable", "UFO %d kerning %r groups %r: %s" % (fmt, nested, groups, e))
+            return
+        finally:
+            r.close()
+        for n, m in groups.items():
+            if g3.get(n) != m:
+                rec.violation("upconvert:old-group-lost", "group %r %r became %r" % (n, m, g3.get(n)))
+        new_names = [n for n in g3 if n not in groups]
+        for n in new_names:
+            if not (n.startswith("public.kern1.") or n.startswith("public.kern2.")):
+                rec.violation("upconvert:new-group-prefix", "new group %r" % n)
+        for side, prefix in (("side1", "public.kern1."), ("side2", "public.kern2.")):
+            for old, new in maps[side].items():
+                if not new.startswith(prefix) or g3.get(new) != groups.get(old):
+                    rec.violation("upconvert:rename-map", "%s: %r -> %r, groups %r" % (side, old, new, g3))
+                rec.witness("group renamed to kern1" if side == "side1" else "group renamed to kern2")
+                if new[-1].isdigit() and not old[-1].isdigit():
+                    rec.witness("unique name suffix")
+        if set(maps["side1"]) & set(maps["side2"]):
+            rec.witness("same group both sides")
+        if len(k3) != len(flat) or sorted(k3.values()) != sorted(flat.values()):
+            rec.violation("upconvert:kerning-pairs", "kerning %r became %r" % (flat, k3))
+        for x in glyphs:
+            for y in glyphs:
+                before, _ = U.lookup_v2((x, y), flat, groups)
+                after, amb = U.lookup_v3((x, y), k3, g3)
+                if before != after:
+                    rec.violation("upconvert:kerning-meaning", "UFO %d kerning %r groups %r: pair %r kerned %r, after conversion %r (kerning %r groups %r)" % (fmt, flat, groups, (x, y), before, after, k3, g3))
+                lib_v = lookupKerningValue((x, y), k3, g3, fallback=None)
+                if not amb and lib_v != after:
+                    rec.violation("kerning:lookup", "lookupKerningValue(%r) = %r, reference %r" % ((x, y), lib_v, after))
 
 
 def short_map(d):
@@ -527,4 +1701,4 @@ def short_map(d):
 
 
 def units():
-    return [FileNames(), GlyphSetHistories()]
+    return [FileNames(), GlyphSetHistories(), LayerHistories(), DesignspaceDocs(), GlifRecords(), UfoData(), UpConversion(), PlistTrees(), AxisMaps()]
